@@ -136,4 +136,12 @@ def hostport (host : Bytes) (defaultPort : Bytes) : Bytes × Bytes :=
     if (match bracket with | some b => decide (c > b) | none => true) then (host.take c, host) else (host, host ++ defaultPort)
   | none => (host, host ++ defaultPort)
 
+/-- dialer.go:Dialer.tlsClient — the server name the TLS session is set up for, and the ServerName
+    of the configuration the caller (or the library's shared default) holds afterwards. A
+    configuration without a name is CLONED before the host name is filled in, so neither the user's
+    configuration nor the package-level default ever changes. `cfgName = none`: Dialer.TLSConfig is nil. -/
+def tlsServerName (cfgName : Option Bytes) (hostname : Bytes) : Bytes × Bytes :=
+  let shared := cfgName.getD []          -- the default config has no name
+  if shared.isEmpty then (hostname, shared) else (shared, shared)
+
 end Ws
